@@ -255,3 +255,7 @@ fn has_changes(solution_ctx: &SolutionContext, previous_state: (usize, usize, us
         || ignored != solution_ctx.ignored.len()
         || unassigned != solution_ctx.unassigned.len()
 }
+
+#[cfg(kani)]
+#[path = "/verif/kani/vrp-core/feature_combinator_proofs.rs"]
+mod verif_kani_proofs;
